@@ -38,7 +38,7 @@ for d in sorted(os.listdir(SEEDS)):
     except Exception:
         pass
     own = d.split("-")[0] if re.match(r"^C\d\d-", d) else None
-    checks = ([own] if own else []) + EXTRA.get(d, [])
+    checks = ([own] if own else []) + ([] if (os.environ.get("OWN_ONLY") and own) else EXTRA.get(d, []))
     for c in dict.fromkeys(checks):
         jobs.append((d, c))
 
@@ -64,12 +64,18 @@ def run(job):
 with ThreadPoolExecutor(max_workers=int(os.environ.get("MATRIX_WORKERS", "3"))) as ex:
     results = list(ex.map(run, jobs))
 out = os.path.join(SEEDS, "MATRIX.json")
-old = json.load(open(out)) if os.path.exists(out) and only else []
+old = json.load(open(out)) if os.path.exists(out) and (only or os.environ.get("KEEP_OLD")) else []
 old = [r for r in old if (r["seed"], r["check"]) not in {(x["seed"], x["check"]) for x in results}]
+if os.environ.get("KEEP_OLD"):
+    for r in old:
+        r["earlier_run"] = True      # a cell of another property's check, kept from an earlier run of the machinery
 results = sorted(old + results, key=lambda r: (r["seed"], r["check"]))
 json.dump(results, open(out, "w"), indent=1)
 with open(os.path.join(SEEDS, "MATRIX.md"), "w") as f:
+    f.write("Cells of the check of the property a change breaks come from the final run; cells marked (earlier) are cross-checks by OTHER properties' "
+            "checks kept from an earlier run of the machinery.\n\n")
     f.write("| seeded change | check | exit | caught | first role reported |\n|---|---|---|---|---|\n")
     for r in results:
-        f.write("| %s | %s | %d | %s | %s |\n" % (r["seed"], r["check"], r["rc"], "yes" if r["caught"] else ("inconclusive" if r["rc"] == 2 else "no"), r["first_role"] or ""))
+        f.write("| %s | %s%s | %d | %s | %s |\n" % (r["seed"], r["check"], " (earlier)" if r.get("earlier_run") else "", r["rc"],
+                                                "yes" if r["caught"] else ("inconclusive" if r["rc"] == 2 else "no"), r["first_role"] or ""))
 print("\n".join("%s %s rc=%d" % (r["seed"], r["check"], r["rc"]) for r in results))
